@@ -1,0 +1,24 @@
+//go:build verif
+
+package sourcewalk
+
+// Contracts for contract-based verification (/verif, properties C02, C13, C17).
+
+//@ func mapProperties
+//@   requires len(virtualPrepend) + len(properties) < 2147483647
+//@   ensures len: len(result) == len(virtualPrepend) + len(properties)
+//@   ensures number: forall i int :: 0 <= i && i < len(result) ==> result[i] != nil && result[i].number == i + 1
+//@   ensures virtual: forall i int :: 0 <= i && i < len(virtualPrepend) ==> result[i].schema == virtualPrepend[i]
+//@   ensures declared: forall i int :: 0 <= i && i < len(properties) ==> result[len(virtualPrepend)+i].schema == properties[i]
+//@   ensures parent: forall i int :: 0 <= i && i < len(result) ==> result[i].parent == parent
+//@   ensures frame: forall i int :: 0 <= i && i < len(properties) ==> properties[i] == old(properties[i])
+//@   loop 0 invariant len(out) == $iter && fieldNumber == $iter
+//@   loop 0 invariant forall i int :: 0 <= i && i < len(out) ==> out[i] != nil && reach(out[i]) && out[i].number == i + 1 && out[i].schema == virtualPrepend[i] && out[i].parent == parent
+//@   loop 0 invariant forall i int :: 0 <= i && i < len(virtualPrepend) ==> virtualPrepend[i] == old(virtualPrepend[i])
+//@   loop 0 invariant forall i int :: 0 <= i && i < len(properties) ==> properties[i] == old(properties[i])
+//@   loop 1 invariant len(out) == len(virtualPrepend) + $iter && fieldNumber == len(virtualPrepend) + $iter
+//@   loop 1 invariant forall i int :: 0 <= i && i < len(out) ==> out[i] != nil && reach(out[i]) && out[i].number == i + 1 && out[i].parent == parent
+//@   loop 1 invariant forall i int :: 0 <= i && i < len(virtualPrepend) ==> out[i].schema == virtualPrepend[i]
+//@   loop 1 invariant forall i int :: 0 <= i && i < $iter ==> out[len(virtualPrepend)+i].schema == properties[i]
+//@   loop 1 invariant forall i int :: 0 <= i && i < len(properties) ==> properties[i] == old(properties[i])
+//@   loop 1 invariant forall i int :: 0 <= i && i < len(virtualPrepend) ==> virtualPrepend[i] == old(virtualPrepend[i])
